@@ -15,7 +15,7 @@ ID = "C09"
 LEVEL = "model_checking"
 FUNCTIONS = ["OrderedRingBuffer.update", "normalize_timestamp", "to_internal_index/wrap", "_update_gaps/_cleanup_gaps/_remove_gap", "Gap.contains", "is_missing",
              "count_valid", "count_covered/_covered_time_range", "oldest_timestamp/newest_timestamp", "window (datetime and index queries)", "_to_covered_indices/get_timestamp",
-             "_wrapped_buffer_window", "_fill_gaps"]
+             "_wrapped_buffer_window", "_fill_gaps", "MovingWindow.at/__getitem__ (object built without its background task)"]
 SHIMS = ["buffer.round / buffer.int map proxy reals to proxy ints (round-half-even / truncation)", "list indexing/slicing with a proxy int realises the index by forking",
          "math.isnan dispatch on proxies"]
 ASSUMPTIONS = [
@@ -169,6 +169,58 @@ def make(cap, k, span, mode, reach=False):
     return fn
 
 
+def make_at(cap, k, span, reach=False):
+    """MovingWindow.at / __getitem__ with an index or a datetime key, on top of the same symbolic update history."""
+    from frequenz.sdk.timeseries._moving_window import MovingWindow
+
+    def fn(ex):
+        buf, model, newest = apply_updates(ex, cap, k, span, check_each=False)
+        if newest is None:
+            return
+        mw = MovingWindow.__new__(MovingWindow)
+        mw._buffer = buf
+        mw._tasks = set()
+        exp = window_ref(model, newest, cap)
+        valid_idx = [j for j, v in enumerate(exp) if v is not None]
+        covered = exp[valid_idx[0]:] if valid_idx else []
+        if reach:
+            if covered:
+                ex.check(False, "reach")
+            return
+        by_index = ex.flag("key_is_index")
+        if by_index:
+            i = ex.choice("index", 2 * (cap + 2) + 1) - (cap + 2)
+            try:
+                got = mw[i]
+                raised = False
+            except IndexError:
+                raised = True
+            in_range = -len(covered) <= i < len(covered)
+            ex.check(raised == (not in_range), f"at({i}) with {len(covered)} covered slots: IndexError={raised}, expected {not in_range}")
+            if in_range and not raised:
+                e = covered[i]
+                ex.check((got == e) if e is not None else math.isnan(got), f"at({i}) = {got}, reference content {e}")
+        else:
+            q = ex.int_("key_us", -2 * PUS, (span + 3) * PUS)
+            key = core.EPOCH + q * timedelta(microseconds=1)
+            try:
+                got = mw[key]
+                raised = False
+            except IndexError:
+                raised = True
+            if not covered:
+                ex.check(raised, "at(datetime) on an empty window must raise IndexError")
+                return
+            oldest_us = (EI(newest) - (cap - 1) + valid_idx[0]) * PUS
+            newest_us = EI(newest) * PUS
+            inside = ex.branch(z3.And(EI(q) >= oldest_us, EI(q) <= newest_us))
+            ex.check(raised == (not inside), f"at(datetime): IndexError={raised} although the key is {'inside' if inside else 'outside'} [oldest, newest]")
+            if inside and not raised:
+                r = ref_value(model, newest, cap, slot_of(q))
+                ex.check((got == r) if r is not None else math.isnan(got), f"at(datetime) = {got}, reference content of the key's slot {r}")
+    return fn
+
+
 def instances(tier):
     I = Instance
     kw = dict(validate_every=200)
@@ -178,6 +230,7 @@ def instances(tier):
         I("cap2-k2-state", "make", (2, 2, 5, "state"), "capacity 2, 2 updates in a 5 s span: state after every update", budget_s=300, **kw),
         I("cap2-k2-dtq", "make", (2, 2, 4, "dtq"), "capacity 2, 2 updates in a 4 s span + datetime query", budget_s=600, **kw),
         I("cap2-k2-idxq", "make", (2, 2, 3, "idxq"), "capacity 2, 2 updates in a 3 s span + index query", budget_s=600, **kw),
+        I("cap2-k2-at", "make_at", (2, 2, 4), "MovingWindow.at / [] with index or datetime key, capacity 2, 2 updates", budget_s=300, **kw),
     ]
     if tier != "quick":
         out += [
